@@ -84,4 +84,15 @@ CHECKS = {
         ],
         **tiers(3000, 60000),
     },
+    "C20": {
+        "pkg": "./checks/c20",
+        "level": "exploration",
+        "assumptions": [
+            "documents are generated well-formed from a content-model-respecting grammar so that parse(render(parse(x))) is stable; arbitrary tag soup is not in the statement",
+            "the DOM is obtained with golang.org/x/net/html on both sides (original and proxied result)",
+            "when the browser sends no Accept-Encoding, Go's HTTP client inside the proxy may transparently gunzip; the client then correctly receives an identity body without Content-Encoding",
+        ],
+        "quick": {"rapid_checks": 2000, "timeout": 900},
+        "thorough": {"rapid_checks": 40000, "timeout": 3000, "shards": 8},
+    },
 }
